@@ -8,7 +8,6 @@
 package seqx
 
 import (
-	"sync/atomic"
 	"bufio"
 	"crypto/sha256"
 	"encoding/hex"
@@ -21,6 +20,7 @@ import (
 	"sort"
 	"strings"
 	"sync"
+	"sync/atomic"
 	"time"
 
 	"github.com/free5gc/go-upf/internal/verif/evid"
@@ -685,6 +685,26 @@ func ReplayMain(path string, times int) int {
 	}
 	mk, ok := registry[v.Property]
 	if !ok || v.Engine != "E1-seqx" {
+		if v.Engine == "E3-vsched" {
+			// one stored schedule, re-executed by the scheduler-flavour worker without any exploration
+			fl := "vs"
+			if strings.HasPrefix(v.Scenario, "C17R") {
+				fl = "vsr"
+			}
+			bin := fmt.Sprintf("%s/worker-%s.run.%s", os.Getenv("VERIF_BUILD"), fl, os.Getenv("VERIF_RUNID"))
+			if _, err := os.Stat(bin); err != nil {
+				bin = os.Getenv("VERIF_BUILD") + "/worker-" + fl
+			}
+			cmd := exec.Command(bin, "e3replay", path)
+			cmd.Stdout, cmd.Stderr, cmd.Env = os.Stdout, os.Stderr, os.Environ()
+			if err := cmd.Run(); err != nil {
+				if ee, ok := err.(*exec.ExitError); ok {
+					return ee.ExitCode()
+				}
+				return 2
+			}
+			return 0
+		}
 		fmt.Printf("replay of %s artefacts (engine %s) is done by re-running the check: the stored shape/schedule is in the file\n", v.Property, v.Engine)
 		return 2
 	}
